@@ -640,6 +640,20 @@ class FnTranslator:
                 sc2[x.id] = xt
             pat = '(' + ', '.join(cname(x.id) for x in target.elts) + ')'
             return self.with_effects(lambda: ('let', pat, v, self.block(rest, sc2, k)))
+        # lst[i] = x  (also lst[i] op= x): functional update of a list / bytearray of ints.
+        # Negative indices are not modelled (IndexError), bytearray elements must be in range(256).
+        if (isinstance(target, ast.Subscript) and isinstance(target.value, ast.Name)
+                and not isinstance(target.slice, ast.Slice) and sc.get(target.value.id) in ('list', 'bytes')):
+            lname = cname(target.value.id)
+            v = self.as_int(*self.expr(value, sc))
+            i = self.as_int(*self.expr(target.slice, sc))
+            tmp = self.fresh('x')
+            self.pre.append((tmp, v, True))
+            self.add_guard('(0 <=? %s) && (%s <? len %s)' % (i, i, lname), 'Internal IndexError')
+            if sc[target.value.id] == 'bytes':
+                self.add_guard('is_byte %s' % tmp, 'Internal ValueErrorI')
+            newl = '(firstn (Z.to_nat %s) %s ++ %s :: skipn (S (Z.to_nat %s)) %s)' % (i, lname, tmp, i, lname)
+            return self.with_effects(lambda: ('let', lname, newl, self.block(rest, dict(sc), k)))
         raise Unsupported('assignment target')
 
     def expr_stmt(self, s, rest, sc, k):
